@@ -42,6 +42,9 @@ SEARCH_KEYS = [b'ALL', b'BODY hello', b'TEXT value', b'SUBJECT a', b'FROM x', b'
 def known_sig(clause, meta, tr):
     """narrow signatures of the open known findings"""
     import re as _re
+    if clause == 'C06_NoServerBug' and meta.get('kind') == 'message' \
+            and meta.get('backend') == 'maildir' and meta.get('last_cmd', '').startswith('APPEND'):
+        return 'MaildirAppendReserialises'
     if clause == 'C07_WellFormed' and meta.get('malformed', '') and \
             meta['malformed'].startswith('atom expected') and \
             _re.search(r'BODY(STRUCTURE)? \( "[^"]*" ', meta.get('malformed_ctx') or ''):
